@@ -58,6 +58,16 @@ def r_serde(f):
             pairs.append((lit, fld))
     n += 1
     ok = len(pairs) == len(field_names) and all(a == b2 for a, b2 in pairs) and {a for a, _ in pairs} == want
+    # every field is written for every value: each serialize_field call dominates the `end()` of the struct (a
+    # `skip_serializing_if` attribute makes one of them conditional, and the reader requires all three keys)
+    sf_blocks = [bi for bi, t, fn in ser.calls() if fn and fn["name"] == "serialize_field"]
+    end_blocks = [bi for bi, t, fn in ser.calls() if fn and fn["name"] == "end"]
+    dom_s = ser.dominators()
+    cond = [bi for bi in sf_blocks if not all(bi in dom_s.get(eb, set()) for eb in end_blocks)]
+    skips = [bi for bi, t, fn in ser.calls() if fn and fn["name"] == "skip_field"]
+    if ok and (cond or skips or not end_blocks):
+        ok = False
+        pairs = pairs + [("<conditional>", "a field is skipped for some values")]
     R.inst(ser.ident, "t1 owned-array writer emits (key, field) pairs %s (derived: %s)" % (pairs, ser.d.get("derived")), ok)
     if not ok:
         R.fail(ser.ident, "t1:writer:%s" % ",".join("%s=%s" % p for p in pairs), "the owned array's serialiser writes %s; every key must carry the struct field of the same name and all of %s must be written" % (pairs, sorted(want)), ser.where())
